@@ -45,6 +45,8 @@ type Op struct {
 
 func (o Op) String() string {
 	switch {
+	case o.I == 0 && o.N == 0:
+		return o.K
 	case o.I != 0 && o.N != 0:
 		return fmt.Sprintf("%s(%d,%d)", o.K, o.I, o.N)
 	case o.N != 0:
@@ -67,6 +69,7 @@ type result struct {
 	err   string
 	class string
 	stop  bool
+	tags  []string // coverage tags of the history (counted once per new state)
 }
 
 // job = one search.
@@ -137,7 +140,25 @@ func atoi(s string) int {
 	return n
 }
 
+// makeJob builds the named search; a panic escaping the code under test inside a plain
+// (non-vsched) history is reported as a violation of class <type>-panic, not as a crash.
 func makeJob(name string, thorough bool) *job {
+	j := makeJob0(name, thorough)
+	if !strings.HasPrefix(name, "cache/") {
+		inner := j.run
+		j.run = func(path []Op, verbose bool) (res result) {
+			defer func() {
+				if p := recover(); p != nil {
+					res = result{err: fmt.Sprintf("panic: %v; history %v", p, path), class: strings.SplitN(name, "/", 2)[0] + "-panic"}
+				}
+			}()
+			return inner(path, verbose)
+		}
+	}
+	return j
+}
+
+func makeJob0(name string, thorough bool) *job {
 	switch {
 	case strings.HasPrefix(name, "rw/"):
 		return rwJob(name, atoi(param(name, "size")), param(name, "ign") == "1", thorough)
@@ -159,10 +180,24 @@ func makeJob(name string, thorough bool) *job {
 }
 
 // search runs one job and records its numbers in r.
-func search(cfg *vlib.Config, r *vlib.Report, j *job, workers int) {
+func search(cfg *vlib.Config, r *vlib.Report, j *job, workers int, deadline time.Time) {
 	var out vlib.BFSResult
+	typ := strings.SplitN(j.name, "/", 2)[0]
+	if typ == "safemap" {
+		typ = j.name
+	}
+	countTags := func(info string) {
+		if info == "" {
+			return
+		}
+		for _, t := range strings.Split(info, ",") {
+			r.Count("states_with:"+typ+":"+t, 1)
+		}
+	}
 	onViolation := func(path []Op, class, msg string) {
-		r.Violation(class, fmt.Sprintf("%s: %s", j.name, msg), Case{Job: j.name, Path: append([]Op(nil), path...)})
+		// "@job" keeps the first (= shortest) violation of every search; normalise() then keeps, per
+		// class, the shortest one over all searches, whatever order the worker processes finished in
+		r.Violation(class+"@"+j.name, fmt.Sprintf("%s: %s", j.name, msg), Case{Job: j.name, Path: append([]Op(nil), path...)})
 	}
 	onState := func(path []Op, key string) {
 		if j.nontriv == nil || j.nontriv(path) {
@@ -174,21 +209,22 @@ func search(cfg *vlib.Config, r *vlib.Report, j *job, workers int) {
 	}
 	if j.pbfs {
 		b := &vlib.PBFS[Op]{
-			Name: j.name, Cfg: cfg, MaxDepth: j.depth, Deadline: cfg.Deadline(), Workers: workers,
+			Name: j.name, Cfg: cfg, MaxDepth: j.depth, Deadline: deadline, Workers: workers,
 			Alphabet: j.alpha,
 			Run: func(path []Op) vlib.RunResult {
 				res := j.run(path, false)
-				return vlib.RunResult{Key: hashKey(res.key), Err: res.err, Class: res.class, Stop: res.stop}
+				return vlib.RunResult{Key: hashKey(res.key), Err: res.err, Class: res.class, Stop: res.stop, Info: strings.Join(res.tags, ",")}
 			},
 			OnViolation: func(path []Op, res vlib.RunResult) { onViolation(path, res.Class, res.Err) },
-			OnState:     func(path []Op, res vlib.RunResult) { onState(path, res.Key) },
+			OnState:     func(path []Op, res vlib.RunResult) { onState(path, res.Key); countTags(res.Info) },
 		}
 		out = b.Search()
 	} else {
 		classOf := map[string]string{}
+		lastTags := ""
 		var mu sync.Mutex
 		b := &vlib.BFS[Op]{
-			Name: j.name, MaxDepth: j.depth, Deadline: cfg.Deadline(), Alphabet: j.alpha,
+			Name: j.name, MaxDepth: j.depth, Deadline: deadline, Alphabet: j.alpha,
 			Run: func(path []Op) (string, error, bool) {
 				res := j.run(path, false)
 				if res.err != "" {
@@ -197,10 +233,11 @@ func search(cfg *vlib.Config, r *vlib.Report, j *job, workers int) {
 					mu.Unlock()
 					return "", fmt.Errorf("%s", res.err), true
 				}
+				lastTags = strings.Join(res.tags, ",")
 				return hashKey(res.key), nil, res.stop
 			},
 			OnViolation: func(path []Op, err error) { onViolation(path, classOf[err.Error()], err.Error()) },
-			OnState:     onState,
+			OnState:     func(path []Op, key string) { onState(path, key); countTags(lastTags) }, // called right after the Run of this state
 		}
 		out = b.Search()
 	}
@@ -213,6 +250,39 @@ func search(cfg *vlib.Config, r *vlib.Report, j *job, workers int) {
 		"cap": out.Cap, "what": j.rule})
 	if !out.Exhaustive {
 		r.NotExhaustive(j.name + ": " + out.Cap)
+	}
+}
+
+// normalise strips the "@job" suffix of the violation classes and keeps one violation per class:
+// the one with the shortest history (ties: job name, then history text). Deterministic.
+func normalise(r *vlib.Report) {
+	best := map[string]vlib.Violation{}
+	rank := func(v vlib.Violation) string {
+		c, _ := v.Replay.(Case)
+		if m, ok := v.Replay.(map[string]any); ok { // came through a partial report (JSON)
+			b, _ := json.Marshal(m)
+			json.Unmarshal(b, &c)
+		}
+		return fmt.Sprintf("%04d|%s|%v", len(c.Path), c.Job, c.Path)
+	}
+	var classes []string
+	for _, v := range r.Violations {
+		base := v.Class
+		if i := strings.LastIndex(base, "@"); i >= 0 {
+			base = base[:i]
+		}
+		v.Class = base
+		if old, ok := best[base]; !ok {
+			best[base] = v
+			classes = append(classes, base)
+		} else if rank(v) < rank(old) {
+			best[base] = v
+		}
+	}
+	sort.Strings(classes)
+	r.Violations = r.Violations[:0]
+	for _, c := range classes {
+		r.Violations = append(r.Violations, best[c])
 	}
 }
 
@@ -308,7 +378,7 @@ func main() {
 
 	// PBFS worker: serve transitions of the named job (never returns).
 	if cfg.BFSWorker != "" {
-		search(cfg, r, makeJob(cfg.BFSWorker, cfg.Thorough()), 0)
+		search(cfg, r, makeJob(cfg.BFSWorker, cfg.Thorough()), 0, time.Time{})
 		os.Exit(0)
 	}
 
@@ -350,7 +420,7 @@ func main() {
 		if name == "safemap/real" && !realConsts() {
 			vlib.Fatal("safemap/real needs the binary built with the original constants")
 		}
-		search(cfg, r, j, cfg.Workers)
+		search(cfg, r, j, cfg.Workers, cfg.Deadline())
 	}
 	if cfg.Shard != "" {
 		vlib.RunShards(r, nil, shardFn) // runs the shard, writes the partial report, exits
@@ -365,7 +435,23 @@ func main() {
 	r.SetExtra("safemap_constants_in_main_binary", fmt.Sprintf("copyThreshold=%d maxDeletion=%d", c, m))
 
 	light, heavy := jobNames(cfg.Thorough())
-	sort.Strings(nil)
+	runReal := true
+	if only := os.Getenv("C16_ONLY"); only != "" { // developer aid: run a subset of the searches
+		keep := func(xs []string) (out []string) {
+			for _, x := range xs {
+				for _, p := range strings.Split(only, ",") {
+					if strings.HasPrefix(x, p) {
+						out = append(out, x)
+						break
+					}
+				}
+			}
+			return
+		}
+		light, heavy = keep(light), keep(heavy)
+		runReal = len(keep([]string{"safemap/real"})) > 0
+		r.NotExhaustive("C16_ONLY=" + only + ": only a subset of the searches was run")
+	}
 
 	// second binary with the original SafeMap constants: build while the light shards run
 	type built struct {
@@ -374,6 +460,10 @@ func main() {
 	}
 	bc := make(chan built, 1)
 	go func() {
+		if !runReal {
+			bc <- built{}
+			return
+		}
 		if realConsts() {
 			bc <- built{exe: os.Args[0]}
 			return
@@ -393,15 +483,24 @@ func main() {
 		if b.err != nil {
 			vlib.Fatal("%v", b.err)
 		}
+		if !runReal {
+			return
+		}
 		runRealSafeMap(cfg, r, b.exe, realWorkers)
 	}()
 	cw := cfg.Workers - realWorkers
 	if cw < 2 {
 		cw = 2
 	}
-	for _, name := range heavy {
-		search(cfg, r, makeJob(name, cfg.Thorough()), cw)
+	for i, name := range heavy {
+		// every cache search gets an equal share of what is left of the soft time box
+		left := time.Until(cfg.Deadline()) - 20*time.Second
+		if left < 0 {
+			left = 0
+		}
+		search(cfg, r, makeJob(name, cfg.Thorough()), cw, time.Now().Add(left/time.Duration(len(heavy)-i)))
 	}
 	wg.Wait()
+	normalise(r)
 	r.Finish()
 }
